@@ -35,11 +35,16 @@ for cfg in ("std", "serde", "nostd"):
 old = set(json.load(open(os.path.join(HERE, "rules", "known_functions.json"))))
 print("inventory: %d keys (was %d); added %s; removed %s" % (len(keys), len(old), sorted(keys - old)[:10], sorted(old - keys)[:10]))
 adts = set()
+shapes = {}
+sys.path.insert(0, HERE)
+from pqa.inline import adt_shape
 for cfg in ("std", "serde", "nostd"):
     text = open(facts_for("/repo", cfg)).read()
     text = re.sub(r'(?<![A-Za-z0-9_])(?:core|alloc)::', 'std::', text)
     for a in json.loads(text)["adts"]:
         adts.add(a["path"])
+        shapes[a["path"]] = adt_shape(a)
+json.dump(shapes, open(os.path.join(HERE, "rules", "known_adt_shapes.json"), "w"), indent=0, sort_keys=True)
 json.dump(sorted(adts), open(os.path.join(HERE, "rules", "known_adts.json"), "w"), indent=0)
 closures = set()
 for cfg in ("std", "serde", "nostd"):
